@@ -32,7 +32,7 @@ pub fn run(tier: &str, seed: u64) -> i32 {
     let (kf, _) = load_kf();
     let thorough = tier == "thorough";
     std::panic::set_hook(Box::new(|_| {}));
-    let (mut descs, mut dropped) = draw(seed, tier, &Profile::python(), "C13", if thorough { 96 } else { 12 });
+    let (mut descs, mut dropped) = draw(seed, tier, &Profile::python(), "C13", if thorough { 160 } else { 24 });
     let dir = work_dir().join(format!("py-{tier}-{seed}"));
     let _ = std::fs::remove_dir_all(&dir);
     let _ = std::fs::create_dir_all(&dir);
